@@ -22,6 +22,10 @@ Pairwise run-time equivalences on the real API (relational oracles, straight fro
                          serialize(T, v, pass_through=p) completed by serialization_default(...) (applied,
                          like a json `default=` hook, to every object that is not JSON data) equals
                          serialize(T, v); what is left untouched is only what p names.
+* `settings_vs_arguments`: every option above given through the global settings (left to default in the
+                         call) vs as per-call arguments, incl. cross cases where the deserialization and
+                         serialization settings differ; same oracles (identical outcomes, no sharing when
+                         the effective no_copy is False); settings restored afterwards.
 * `deser_pass_through` : deserialize(..., pass_through=classes / predicate): identical outcomes on JSON
                          data (valid and invalid); data holding instances of the named classes give
                          the result of the JSON form, the instances being returned as they are.
@@ -230,6 +234,7 @@ def run(report, tier: str, seed: int):
         run_ser_options(report, tier, seed, realm)
         run_ser_pass_through(report, tier, seed, realm)
         run_deser_pass_through(report, tier, seed, realm)
+        run_settings_vs_arguments(report, tier, seed, realm)
     finally:
         realm.dispose()
 
@@ -1130,3 +1135,184 @@ def _contains_identical(x, o) -> bool:
     if dataclasses.is_dataclass(x) and not isinstance(x, type):
         return any(_contains_identical(getattr(x, f.name, None), o) for f in dataclasses.fields(x))
     return False
+
+
+# ---------------------------------------------------------------------------------------------
+# every optimisation option as a global setting left to default vs as a per-call argument
+
+
+def _settings_configs(realm):
+    """(name, {(section, attribute): value}, explicit deserialize kwargs, explicit serialize kwargs):
+    the per-call arguments are what the settings must amount to for each direction -- a setting of
+    one direction must not leak into the other one (cross cases)"""
+    from apischema import PassThroughOptions
+
+    A, Color = realm.built["A"], realm.built["Color"]
+    dpt = (A, Color, uuid.UUID)
+    dpt_pred = lambda t: t in (A, dt.date, bytes)  # noqa: E731
+    spt = PassThroughOptions(tuple=True, enums=True, types=(uuid.UUID,))
+    spt2 = PassThroughOptions(any=True, collections=True, dataclasses=True)
+    D, S = "deserialization", "serialization"
+    return [
+        ("deser.no_copy=False", {(D, "no_copy"): False}, {"no_copy": False}, {"no_copy": True}),
+        ("ser.no_copy=False", {(S, "no_copy"): False}, {"no_copy": True}, {"no_copy": False}),
+        ("deser.no_copy=False,ser.no_copy=False", {(D, "no_copy"): False, (S, "no_copy"): False}, {"no_copy": False}, {"no_copy": False}),
+        ("deser.no_copy=True,ser.no_copy=False,ser.check_type=True", {(D, "no_copy"): True, (S, "no_copy"): False, (S, "check_type"): True}, {"no_copy": True}, {"no_copy": False, "check_type": True}),
+        ("ser.check_type=True", {(S, "check_type"): True}, {}, {"check_type": True}),
+        ("deser.pass_through=classes", {(D, "pass_through"): dpt}, {"pass_through": dpt}, {}),
+        ("deser.pass_through=predicate,deser.no_copy=False", {(D, "pass_through"): dpt_pred, (D, "no_copy"): False}, {"pass_through": dpt_pred, "no_copy": False}, {}),
+        ("ser.pass_through=TE+UUID", {(S, "pass_through"): spt}, {}, {"pass_through": spt}),
+        ("ser.pass_through=ACD,deser.pass_through=classes,ser.no_copy=False", {(S, "pass_through"): spt2, (D, "pass_through"): dpt, (S, "no_copy"): False}, {"pass_through": dpt}, {"pass_through": spt2, "no_copy": False}),
+        ("ser.exclude_defaults=True", {(S, "exclude_defaults"): True}, {}, {"exclude_defaults": True}),
+        ("ser.exclude_none=True,ser.exclude_unset=False", {(S, "exclude_none"): True, (S, "exclude_unset"): False}, {}, {"exclude_none": True, "exclude_unset": False}),
+        ("deser.fall_back_on_default=True,deser.coerce=True,deser.no_copy=False", {(D, "fall_back_on_default"): True, (D, "coerce"): True, (D, "no_copy"): False}, {"fall_back_on_default": True, "coerce": True, "no_copy": False}, {}),
+        ("additional_properties=True,deser.no_copy=False,ser.no_copy=False", {(None, "additional_properties"): True, (D, "no_copy"): False, (S, "no_copy"): False}, {"additional_properties": True, "no_copy": False}, {"additional_properties": True, "no_copy": False}),
+    ]
+
+
+def run_settings_vs_arguments(report, tier, seed, realm):
+    from apischema import cache as ap_cache
+    from apischema import deserialize, serialize, settings
+    from apischema.deserialization import deserialization_method
+    from apischema.serialization import serialization_method
+
+    rng = random.Random(seed + 7)
+    pool = pool_for(tier)
+    configs = _settings_configs(realm)
+    nd, nv = (8, 4) if tier == "quick" else (30, 12)
+    log = report.driver(
+        "settings_vs_arguments",
+        bound=f"{len(configs)} assignments of the global settings (deserialization.no_copy / pass_through / coerce / fall_back_on_default, serialization.no_copy / check_type / pass_through / exclude_defaults / exclude_none / exclude_unset, additional_properties; alone and in cross combinations where the two directions differ) x ({len(pool)} type descriptions + hand-written types with UUID / date / dataclass / enum / tuple / Any) x <= {nd} data (valid and invalid, plus data holding instances) and <= {nv} values each x {{function, precomputed method}}",
+    )
+    log.rule("case = (settings assignment, type, datum or value, function / method): the call made WITHOUT the option arguments under the assigned settings gives the identical outcome as the call made under the default settings WITH the equivalent per-call arguments; when the effective deserialization (serialization) no_copy is False the result shares no mutable container with the input; the input is never modified; all settings are restored afterwards")
+    # targets
+    A, Color = realm.built["A"], realm.built["Color"]
+    u1, a1 = uuid.UUID(int=9), A(4, "four")
+    dtargets: List[Tuple[str, Any, List[Any]]] = []
+    starget: List[Tuple[str, Any, List[Any], dict]] = []
+    for td in pool:
+        tp = _realize(report, td, realm)
+        if tp is None:
+            continue
+        data = data_for(td, "quick", rng)
+        valid = [d for d in data if ext_ref_deserialize(td, copy.deepcopy(d), realm, M.Opts())[0] == "ok"]
+        rng.shuffle(data)
+        dtargets.append((short(td), tp, valid[: nd // 2] + data[: nd // 2]))
+        vals = values_of(td, realm, "quick", rng)
+        rng.shuffle(vals)
+        starget.append((short(td), tp, vals[:nv], {}))
+    dtargets += [
+        ("List[UUID]", typing.List[uuid.UUID], [[str(u1)], [u1, str(u1)], ["bad"]]),
+        ("Dict[str,A]", typing.Dict[str, A], [{"k": {"a": 1}}, {"k": a1, "l": {"a": 2, "b": "z"}}, {"k": {"a": "x"}}]),
+        ("Tuple[A,Color]", typing.Tuple[A, Color], [[{"a": 1}, 1], [a1, Color.G], [a1, 7]]),
+        ("Dict[str,List[Dict[str,int]]]", typing.Dict[str, typing.List[typing.Dict[str, int]]], [{"k": [{"a": 1}, {}]}, {"k": [{"a": "x"}]}]),
+    ]
+    for h in hand_types(realm):
+        starget.append((h[0], h[1], h[2][:nv], h[4] if len(h) > 4 else {}))
+
+    def deser_runs(kw):
+        out = []
+        for tname, tp, data in dtargets:
+            try:
+                meth = deserialization_method(tp, **kw)
+            except Exception as e:
+                out.append([("crash", f"compile {type(e).__name__}: {e}")] * (2 * len(data)))
+                continue
+            row = []
+            for d in data:
+                for how in ("function", "method"):
+                    d2 = _shallow_rebuild_deep(d)
+                    before = _shallow_rebuild_deep(d2)
+                    r = call(deserialize, tp, d2, **kw) if how == "function" else call(meth, d2)
+                    shared = shared_containers(r[1], d2) if r[0] == "ok" else []
+                    row.append((r, shared, state_of(before) == state_of(d2)))
+            out.append(row)
+        return out
+
+    def ser_runs(kw):
+        out = []
+        for tname, tp, vals, extra in starget:
+            k = {**kw, **extra}
+            try:
+                meth = serialization_method(tp, **k)
+            except Exception as e:
+                out.append([("crash", f"compile {type(e).__name__}: {e}")] * (2 * len(vals)))
+                continue
+            row = []
+            for v in vals:
+                for how in ("function", "method"):
+                    before = copy.deepcopy(v)
+                    r = call(serialize, tp, v, **k) if how == "function" else call(meth, v)
+                    shared = shared_containers(r[1], v) if r[0] == "ok" else []
+                    row.append((r, shared, E.deep_eq(denan(before), denan(v))))
+            out.append(row)
+        return out
+
+    touched = sorted({k for _, assign, _, _ in configs for k in assign}, key=repr)
+
+    def section(sec):
+        return settings if sec is None else getattr(settings, sec)
+
+    saved = {k: getattr(section(k[0]), k[1]) for k in touched}
+    reported: Dict[Any, int] = {}
+    try:
+        ap_cache.reset()
+        expected = [(deser_runs(dkw), ser_runs(skw)) for _, _, dkw, skw in configs]
+        for (cname, assign, dkw, skw), (exp_d, exp_s) in zip(configs, expected):
+            try:
+                for (sec, attr), val in assign.items():
+                    setattr(section(sec), attr, val)
+                ap_cache.reset()
+                got_d, got_s = deser_runs({}), ser_runs({})
+            finally:
+                for k in touched:
+                    setattr(section(k[0]), k[1], saved[k])
+                ap_cache.reset()
+            eff_d = dkw.get("no_copy", True)
+            eff_s = skw.get("no_copy", True)
+            for direction, targets, exp, got, eff, kw in (("deserialize", dtargets, exp_d, got_d, eff_d, dkw), ("serialize", starget, exp_s, got_s, eff_s, skw)):
+                for tgt, erow, grow in zip(targets, exp, got):
+                    tname, inputs = tgt[0], tgt[2]
+                    labels = [(x, how) for x in inputs for how in ("function", "method")]
+                    for (x, how), e, g in zip(labels, erow, grow):
+                        log.case((cname, direction, tname, how, repr(x)), True, sample={"settings": cname, "call": f"{direction} ({how})", "type": tname, "input": repr(x)} if how == "method" and isinstance(x, (list, dict)) else None)
+                        if isinstance(e, tuple) and len(e) == 2 and e[0] == "crash":
+                            e = (e, [], True)
+                        if isinstance(g, tuple) and len(g) == 2 and g[0] == "crash":
+                            g = (g, [], True)
+
+                        def fail(kind, summary, observed=None, expected=None):
+                            # a broken default shows on thousands of cases: keep the first ones of each
+                            # (kind, settings, direction), count the rest
+                            key = (kind, cname, direction)
+                            reported[key] = reported.get(key, 0) + 1
+                            if reported[key] > 12:
+                                log.stats["violations"] += 1
+                                return
+                            log.fail(f"{kind}:{cname}:{direction}:{how}:{tname}:{x!r}", f"{kind}: settings {cname}; {direction}({tname}, {x!r}) by {how} without option arguments: {summary}", {"settings": cname, "call": direction, "how": how, "type": tname, "input": repr(x), "equivalent_arguments": repr(kw)}, observed=rs(observed, 600), expected=rs(expected, 600), functions_involved=["deserialization_method", "serialization_method", "settings"])
+
+                        same = g[0][0] == e[0][0] and (state_of(denan(g[0][1])) == state_of(denan(e[0][1])) if g[0][0] == "ok" else g[0][1] == e[0][1])
+                        if not same:
+                            fail("setting-vs-argument-differs", f"gives {rs(g[0], 250)}, but the per-call arguments {kw!r} under the default settings give {rs(e[0], 250)}", g[0], e[0])
+                        # what pass-through names is left untouched by definition: instances held by the
+                        # data (deserialization), collections / dataclasses / Any (serialization)
+                        pt = kw.get("pass_through")
+                        untouched_allowed = (direction == "deserialize" and pt is not None and not jsonable(x)) or (direction == "serialize" and pt is not None and (pt.any or pt.collections or pt.dataclasses))
+                        if not eff and g[1] and not untouched_allowed:
+                            fail("setting-no_copy=False-shares-container", f"the effective no_copy is False but the result {rs(g[0][1], 200)} shares {rs(g[1], 200)} with the input", g[1], [])
+                        if not g[2]:
+                            fail("setting-input-modified", "the input was modified", None, None)
+    finally:
+        for k in touched:
+            setattr(section(k[0]), k[1], saved[k])
+        ap_cache.reset()
+    return log
+
+
+def _shallow_rebuild_deep(x):
+    """fresh lists / dicts at every level, the same leaf and instance objects"""
+    if type(x) is list:
+        return [_shallow_rebuild_deep(y) for y in x]
+    if type(x) is dict:
+        return {k: _shallow_rebuild_deep(v) for k, v in x.items()}
+    return x
